@@ -18,8 +18,7 @@ Proof. vm_compute. repeat split. Qed.
 (* the decode targets are the all-pointer, all-omitempty views of the encoded structs *)
 Lemma optional_views :
   opt_global_ty = optionalize codec global_ty /\ opt_path_ty = optionalize codec path_ty /\
-  global_ty = TStruct (fields_of global_ty) /\ path_ty = TStruct (fields_of path_ty) /\
-  ptr_omit codec (fields_of global_ty) = true /\ ptr_omit codec (fields_of path_ty) = true.
+  global_ty = TStruct (fields_of global_ty) /\ path_ty = TStruct (fields_of path_ty).
 Proof. vm_compute. repeat split. Qed.
 
 Section Instance.
@@ -54,17 +53,17 @@ Section Instance.
     dec codec cval cdec czero t' (enc codec cval cenc t (VStruct vs)) = Some (lift codec cval t (VStruct vs)) /\
     patch codec cval t (VStruct vs) (lift codec cval t (VStruct vs)) = VStruct vs.
   Proof.
-    intros Hin vs Hw. destruct schemas_ok as (H1 & H2 & H3 & H4).
-    destruct optional_views as (V1 & V2 & S1 & S2 & P1 & P2).
+    intros Hin vs Hw. destruct schemas_ok as (H1 & H2 & _ & _).
+    destruct optional_views as (V1 & V2 & S1 & S2).
     simpl in Hin. destruct Hin as [Hin|[Hin|[]]]; inversion Hin; subst t t'.
-    - unfold schema_ok in H1, H3. apply andb_true_iff in H1 as [Hok _]. apply andb_true_iff in H3 as [Hok' Hk'].
-      rewrite V1 in *. rewrite S1 in *.
+    - unfold schema_ok in H1. apply andb_true_iff in H1 as [Hok Hk].
+      rewrite V1. rewrite S1 in *.
       apply (conf_optional_roundtrip net6 net6_print net6_parse cred_valid track track_enc track_dec net6_ok track_ok
-               (fields_of global_ty) vs Hok P1 Hok' Hk' Hw).
-    - unfold schema_ok in H2, H4. apply andb_true_iff in H2 as [Hok _]. apply andb_true_iff in H4 as [Hok' Hk'].
-      rewrite V2 in *. rewrite S2 in *.
+               (fields_of global_ty) vs Hok Hk Hw).
+    - unfold schema_ok in H2. apply andb_true_iff in H2 as [Hok Hk].
+      rewrite V2. rewrite S2 in *.
       apply (conf_optional_roundtrip net6 net6_print net6_parse cred_valid track track_enc track_dec net6_ok track_ok
-               (fields_of path_ty) vs Hok P2 Hok' Hk' Hw).
+               (fields_of path_ty) vs Hok Hk Hw).
   Qed.
 End Instance.
 
